@@ -381,11 +381,15 @@ func c17jobs(tier string) []c17job {
 		}
 		// the PowerShot constants are named after the camera: a constant formats as its own
 		// camera's name or, like most of them, as "" - never as another camera's
-		if part == 0 {
+		{ // in every part, i.e. in every worker process: a table built at start-up is the same in each
 			for _, k := range []struct {
 				m    mkcanon.CameraModel
 				name string
-			}{{mkcanon.PowerShotA200, "Canon PowerShot A200"}, {mkcanon.PowerShotA510, "Canon PowerShot A510"}, {mkcanon.PowerShotA540, "Canon PowerShot A540"},
+			}{{mkcanon.PowerShotS410, "Canon PowerShot S410"}, {mkcanon.EOS350D, "Canon EOS 350D DIGITAL"}, {mkcanon.EOS400D, "Canon EOS 400D DIGITAL"},
+				{mkcanon.EOS6D, "Canon EOS 6D"}, {mkcanon.EOSR5, "Canon EOS R5"}, {mkcanon.EOSR6, "Canon EOS R6"}, {mkcanon.EOS80D, "Canon EOS 80D"},
+				{mkcanon.EOS7D, "Canon EOS 7D"}, {mkcanon.EOS40D, "Canon EOS 40D"}, {mkcanon.EOS450D, "Canon EOS 450D"}, {mkcanon.EOS50D, "Canon EOS 50D"},
+				{mkcanon.EOS20D, "Canon EOS 20D"}, {mkcanon.EOS1000D, "Canon EOS 1000D"}, {mkcanon.EOSR, "Canon EOS R"}, {mkcanon.EOSRP, "Canon EOS RP"},
+				{mkcanon.PowerShotA200, "Canon PowerShot A200"}, {mkcanon.PowerShotA510, "Canon PowerShot A510"}, {mkcanon.PowerShotA540, "Canon PowerShot A540"},
 				{mkcanon.PowerShotA450, "Canon PowerShot A450"}, {mkcanon.PowerShotA590IS, "Canon PowerShot A590 IS"}, {mkcanon.PowerShotA75, "Canon PowerShot A75"},
 				{mkcanon.PowerShotA80, "Canon PowerShot A80"}, {mkcanon.PowerShotA85, "Canon PowerShot A85"}, {mkcanon.PowerShotG2, "Canon PowerShot G2"},
 				{mkcanon.PowerShotG9, "Canon PowerShot G9"}, {mkcanon.PowerShotS2IS, "Canon PowerShot S2 IS"}, {mkcanon.PowerShotS5IS, "Canon PowerShot S5 IS"},
